@@ -114,7 +114,14 @@ def start_execution_launch_contract():
         requires=["isdict(self.pending_requests)", "isdict(self.cancellers)", "isobj(self.state_engine)",
                   "isobj(self.state_engine.event_dispatcher)", "isdict(parameters)", "isdict(state_machine)",
                   "haskey(context, 'Execution')", "isdict(context['Execution'])", "haskey(context['Execution'], 'Id')",
-                  "implies(haskey(parameters, 'StateMachineArn'), isstr(parameters['StateMachineArn']) or isnone(parameters['StateMachineArn']))"],
+                  "implies(haskey(parameters, 'StateMachineArn'), isstr(parameters['StateMachineArn']) or isnone(parameters['StateMachineArn']))",
+                  "isdict(self.state_engine.executions)", "isdict(self.state_engine.execution_history)",
+                  "implies(context['Execution']['Id'] in self.state_engine.execution_history, "
+                  "islist(self.state_engine.execution_history[context['Execution']['Id']]))",
+                  "not same(self.pending_requests, self.state_engine.executions)", "not same(self.cancellers, self.state_engine.executions)",
+                  "not same(self.pending_requests, self.state_engine.execution_history)",
+                  "not same(self.cancellers, self.state_engine.execution_history)", "not same(self.pending_requests, self.cancellers)",
+                  "not same(parameters, self.cancellers)", "not same(parameters, self.pending_requests)"],
         ensures=[
             # C19: only asynchronous child launches (startExecution) go to the shared queue; synchronous ones stay with the
             # instance that holds their pending request
@@ -123,8 +130,32 @@ def start_execution_launch_contract():
             ("C19:at-most-one-launch", "n_evpub == old(n_evpub) or n_evpub == old(n_evpub) + 1"),
             # C04: a request that was already sent is not sent again after redelivery
             ("C04:redelivered-not-relaunched", "implies(istrue(redelivered), n_evpub == old(n_evpub))"),
+            # C04/C15: the child's name (hence its ARN, the key its completion is matched under) is a function of the task's
+            # event alone -- the supplied Name, else the event id -- so a redelivered launch registers under the same key
+            ("C04,C15:child-name-from-event", "implies(n_evpub == old(n_evpub) + 1, same(at_snapshot('evpub_heap', "
+                                              "evpub_item['context']['Execution']['Name']), "
+                                              "old(parameters['Name'] if 'Name' in parameters else event_id)))"),
+            ("C04,C15:child-input-is-parameter", "implies(n_evpub == old(n_evpub) + 1 and old('Input' in parameters), "
+                                                 "same(at_snapshot('evpub_heap', evpub_item['data']), old(parameters['Input'])))"),
+            # C03/C06/C15: a synchronous launch leaves a cancellation handle naming the very request that is pending ...
+            ("C03,C06,C15:sync-canceller-names-pending-request",
+             "implies(n_errcb == old(n_errcb) and resource != 'startExecution', event_id in self.cancellers and "
+             "isdict(self.cancellers[event_id]) and self.cancellers[event_id]['TaskID'] in self.pending_requests and "
+             "self.cancellers[event_id]['Type'] == 'StepFunction')"),
+            # ... which (except for task-token callbacks) is keyed by the child's own execution ARN, the id the child reports
+            # its completion under
+            ("C15:pending-under-child-arn", "implies(n_evpub == old(n_evpub) + 1 and resource != 'startExecution' and "
+                                            "resource != 'startExecution.waitForTaskToken', "
+                                            "at_snapshot('evpub_heap', evpub_item['context']['Execution']['Id']) in self.pending_requests)"),
+            ("C15:async-launch-completes-at-once", "implies(resource == 'startExecution' and n_errcb == old(n_errcb), "
+                                                   "n_timer == old(n_timer) and n_cb == old(n_cb) + 1)"),
+            ("C15:sync-launch-waits", "implies(resource != 'startExecution', n_cb == old(n_cb))"),
         ],
         raises={"Exception": None},
+        covers_exit=[("launched-sync", "n_evpub == old(n_evpub) + 1 and resource == 'startExecution.sync' and n_errcb == old(n_errcb)"),
+                     ("launched-async", "n_evpub == old(n_evpub) + 1 and resource == 'startExecution'"),
+                     ("redelivered-sync-reregistered", "istrue(redelivered) and resource == 'startExecution.sync:2' and "
+                                                       "n_errcb == old(n_errcb) and n_timer == old(n_timer) + 1")],
         protected=["self", "context", "parameters", "state_machine", "self.pending_requests", "self.cancellers", "self.state_engine",
                    "self.state_engine.event_dispatcher"],
         modifies="ALL")
@@ -140,7 +171,14 @@ def rpcmessage_contract():
                   "isobj(self.state_engine.event_dispatcher)", "isdict(state_machine)", "not same(self.pending_requests, self.cancellers)",
                   "haskey(context, 'Execution')", "isdict(context['Execution'])", "haskey(context['Execution'], 'Id')",
                   "isstr(resource_type)", "implies(isdict(parameters) and haskey(parameters, 'FunctionName'), isstr(parameters['FunctionName']) "
-                  "or isnone(parameters['FunctionName']))"],
+                  "or isnone(parameters['FunctionName']))",
+                  # the dispatcher's request tables are not the engine's stores (separate objects built in the constructors)
+                  "isdict(self.state_engine.executions)", "isdict(self.state_engine.execution_history)",
+                  "implies(context['Execution']['Id'] in self.state_engine.execution_history, "
+                  "islist(self.state_engine.execution_history[context['Execution']['Id']]))",
+                  "not same(self.pending_requests, self.state_engine.executions)", "not same(self.cancellers, self.state_engine.executions)",
+                  "not same(self.pending_requests, self.state_engine.execution_history)",
+                  "not same(self.cancellers, self.state_engine.execution_history)"],
         ensures=[
             # C04: a task whose request was already sent is not requested again; its reply can still be matched because the
             # pending request, the canceller and the timeout are registered again under the same correlation id
@@ -155,6 +193,14 @@ def rpcmessage_contract():
                                        "at_snapshot('rpc_heap', rpc_msg.mandatory == True))"),
             ("C04,C19:correlation-is-event-id", "implies(n_rpc == old(n_rpc) + 1 and resource_type != 'rpcmessage', "
                                                 "at_snapshot('rpc_heap', same(rpc_msg.correlation_id, event_id)))"),
+            # C03/C06: the cancellation handle registered for this task's event names the very request that is pending
+            # (long-form invocations carry a suffixed correlation id), so cancelling the event removes that request
+            ("C03,C06:canceller-names-pending-request", "implies(n_errcb == old(n_errcb), event_id in self.cancellers and "
+                                                        "isdict(self.cancellers[event_id]) and "
+                                                        "self.cancellers[event_id]['TaskID'] in self.pending_requests and "
+                                                        "self.cancellers[event_id]['Type'] == 'Function')"),
+            ("C03,C04,C06:pending-under-correlation-id", "implies(n_errcb == old(n_errcb), %s in self.pending_requests and "
+                                                         "self.cancellers[event_id]['TaskID'] == %s)" % (CORR, CORR)),
         ],
         raises={"Exception": None},
         covers_exit=[("sent", "n_rpc == old(n_rpc) + 1"), ("redelivered-not-sent", "redelivered and n_rpc == old(n_rpc) and n_timer == old(n_timer) + 1")],
